@@ -148,6 +148,14 @@ theorem cap_classad (cap : Nat) (hc : 0 < cap) (pfail : Option Nat) (s : St) :
     (getClassAd cap pfail s).2.m.held ≤ max s.m.held (max cap 8) :=
   ⟨((getClassAd_facts cap pfail s _ _ rfl).2 hc).need, ((getClassAd_facts cap pfail s _ _ rfl).2 hc).held⟩
 
+/-- **the skipping reader allocates (almost) nothing** — `SkipClassAdRaw` follows the secret marker
+    by looking only at strings exactly as long as the marker (`skipStringIs`: a `GetBytes` of at
+    most `|marker| + 1 = 4` bytes); whatever the ad, it never asks the wire for more than 8 bytes at
+    once and never holds a value longer than 8 bytes. -/
+theorem cap_skip (s : St) :
+    (skipClassAdRaw s).2.m.need ≤ max s.m.need 8 ∧ (skipClassAdRaw s).2.m.held ≤ max s.m.held 8 :=
+  ⟨(skipClassAdRaw_facts s _ _ rfl).2.need, (skipClassAdRaw_facts s _ _ rfl).2.held⟩
+
 /-- **cap honoured, token exchange** — identity strings and tokens are read under their limits
     (`AUTH_PW_MAX_NAME_LEN`, `AUTH_PW_MAX_TOKEN_LEN`). -/
 theorem cap_handshake (s : St) :
@@ -242,5 +250,8 @@ example : isErr .panic (getClassAd 0 none demoPlain).1 = false ∧ (getClassAd 0
 example : (getClassAd 64 none demoPlain).1.isOk = true ∧ (skipClassAdRaw demoPlain).1.isOk = true := by decide
 example : (getClassAd 7 none demoPlain).1.isOk = false := by decide
 example : (getClassAdRaw demoPlain).1.isOk = true := by decide
+/-- the skipping reader takes the marker path and ends where the parsing reader ends -/
+example : (skipClassAdRaw demoPlain).2.m.calls = (getClassAd 0 none demoPlain).2.m.calls ∧
+    (skipClassAdRaw demoPlain).2.bytes = 0 := by decide
 
 end Cedar.C13
